@@ -271,6 +271,25 @@ def unit_lp_pair(cname, pkind):
     return Unit('builtin/lp-pair/%s/p=%s' % (cname, pkind), run, funcs=[DF + cname + '.convex_conj', 'odl.util.utility:conj_exponent'], config={'class': cname, 'p': pkind})
 
 
+
+def unit_functional_pool_bounded():
+    """BOUNDED stand-in (never counted as proved) for the built-in functionals outside the deductive units (sort / SVD / group-norm based closed forms,
+    weighted power spaces, domains with several axes): one small instance per functional x space in contracts/funcpool.py, fixed random inputs: Fenchel-Young at random pairs with equality at y = gradient(x), biconjugate values, Moreau decomposition"""
+    def run(ctx):
+        from contracts import funcpool
+        for name in sorted(funcpool.pool()):
+            try:
+                bad, n = funcpool.check_conj(name)
+            except Exception as e:
+                bad, n = 'check raised %s: %s' % (type(e).__name__, str(e)[:200]), 1
+            if n == 0 and not bad:
+                continue
+            ctx.evals += max(n - 1, 0)
+            ctx.bounded('built-in functional: conjugate, biconjugate and proximals are consistent', not bad, {'functional': name}, detail=bad)
+    return Unit('functional-pool/conjugate', run, funcs=['odl.solvers.functional.default_functionals:*', 'odl.solvers.nonsmooth.proximal_operators:*'], kind='B',
+                bounded_in='one small instance per built-in functional x space in contracts/funcpool.py (130 entries), 2 step sizes x 3 random points x ~60 probes')
+
+
 def units(tier, seed):
     us = [unit_conj(k) for k in KINDS]
     for cn in ('LpNorm', 'IndicatorLpUnitBall'):
@@ -278,10 +297,18 @@ def units(tier, seed):
             us.append(unit_lp_pair(cn, pk))
     us.append(unit_moreau())
     us.append(unit_pair_l2sq())
+    us.append(unit_functional_pool_bounded())
     us.append(unit_canary())
     return us
 
 
 def replay(ob):
+    if ob.get('unit', '').startswith('functional-pool/'):
+        from contracts import funcpool
+        try:
+            bad = funcpool.check_conj((ob.get('model') or {}).get('functional'))[0]
+        except Exception as e:
+            bad = 'raised %s: %s' % (type(e).__name__, e)
+        return {'reproduced': bool(bad), 'detail': bad or 'holds natively', 'input': ob.get('model')}
     from contracts import replay_c08
     return replay_c08.replay(ob)
